@@ -245,19 +245,33 @@ func (w *World) afterFirstSync() {
 		w.unconverged = diffKinds(d)
 		w.S.Stat("c15.unconverged")
 	}
+	// which differences do the listed C15 switches predict?
+	var rest []DiffItem
+	var used []string
+	if len(d) > 0 {
+		rest = d
+		if len(stale0) > 0 {
+			rest = explainD8(rest, e)
+			used = append(used, "D8")
+		}
+		var u2 []string
+		rest, u2 = w.explainConvergence(rest, e, o)
+		if len(stale0) == 0 {
+			used = u2 // with D8 in play the key stays "D8" (S1/S3 leftovers ride along, as before)
+		}
+	}
 	if w.armed("C15") {
 		w.checkForeign("end of synchronisation")
 		if len(d) > 0 {
-			if len(stale0) > 0 {
+			switch {
+			case len(rest) > 0:
+				w.fail("C15.not-converged", "unexplained:"+diffKinds(rest), "after a full synchronisation (prior state %s; switches that explain other differences: %v): %s",
+					w.priorDesc, used, diffText(rest, 8))
+			case len(stale0) > 0:
 				w.fail("C15.not-converged", "D8", "a stale policy chain was still in use when the synchronisation started (%s): %s",
 					strings.Join(stale0, ","), diffText(d, 6))
-				return
-			}
-			rest, used := w.explainConvergence(d, e, o)
-			if len(rest) == 0 {
+			default:
 				w.fail("C15.not-converged", strings.Join(used, "+"), "after a full synchronisation: %s", diffText(d, 6))
-			} else {
-				w.fail("C15.not-converged", "unexplained:"+diffKinds(rest), "after a full synchronisation (prior state %s): %s", w.priorDesc, diffText(rest, 8))
 			}
 			return
 		}
@@ -268,21 +282,71 @@ func (w *World) afterFirstSync() {
 			// (stale leftovers: D8, S1, S3) is not judged a second time here. Any other difference from the
 			// expected compiled state does NOT excuse the rules: they are judged as they are (a wrong
 			// compilation is exactly what C16 is about).
-			if len(stale0) > 0 {
+			if len(rest) == 0 {
 				w.S.Stat("c16.skipped-c15-known")
-				return
-			}
-			if rest, _ := w.explainConvergence(d, e, o); len(rest) == 0 {
-				w.S.Stat("c16.skipped-c15-known")
+				w.c16Skipped = true
 				return
 			}
 			w.S.Stat("c16.judged-although-unconverged")
 		}
-		w.judgeFlows(o)
+		w.judgeFlows(o, "after one full synchronisation")
 	}
 }
 
+// explainD8 removes the differences switch D8 predicts. The policy-chain batch of the synchronisation was
+// refused as a whole, so: stale policy chains and their (in use) sets are still there, new policy chains are
+// missing, existing ones keep their old rules; and the chain of a pod that must jump to a missing policy chain
+// could not be written - its batch is refused too and SyncPodChains returns before touching the pod's dispatch
+// rules. Nothing else: in particular D8 never keeps the chain of a pod that no policy selects any more.
+func explainD8(d []DiffItem, e *Expected) []DiffItem {
+	missing := map[string]bool{}
+	for _, x := range d {
+		if x.Kind == "missing-policy-chain" {
+			missing[x.Object] = true
+		}
+	}
+	podHit := map[string]bool{}
+	for n, ep := range e.Pods {
+		for _, j := range ep.Jumps {
+			if missing[j] {
+				podHit[n] = true
+			}
+		}
+	}
+	var rest []DiffItem
+	for _, x := range d {
+		switch x.Kind {
+		case "extra-policy-chain", "extra-set", "missing-policy-chain", "policy-rules":
+			continue
+		case "missing-pod-chain", "pod-chain-rules":
+			if podHit[x.Object] {
+				continue
+			}
+		case "missing-dispatch", "extra-dispatch":
+			if podHit[x.Target] {
+				continue
+			}
+		}
+		rest = append(rest, x)
+	}
+	return rest
+}
+
 func (w *World) afterSecondSync() {
+	if w.armed("C16") && !w.c16Skipped && w.S.Viol == nil && w.S.Infra == "" {
+		// a second synchronisation of the unchanged state: if it changed anything, what the rules mean now is
+		// judged as well (identical state, identical verdicts otherwise)
+		if w.Kern.SaveAll() != w.k1text {
+			w.S.Stat("c16.second-sync-changed-state")
+			o := observe(w.Kern)
+			if o.perr != "" {
+				w.S.Infra = o.perr
+				return
+			}
+			w.judgeFlows(o, "after a second full synchronisation of the unchanged state")
+		}
+		return
+	}
 	if !w.armed("C15") {
 		return
 	}
@@ -338,7 +402,7 @@ func (w *World) walkFlow(targets []string, f Flow) (bool, error) {
 	return true, nil
 }
 
-func (w *World) judgeFlows(o *Observed) {
+func (w *World) judgeFlows(o *Observed, when string) {
 	targets, first := dispatchOrder(o)
 	fl := flows(w.cl)
 	got := make([]bool, len(fl))
@@ -382,12 +446,12 @@ func (w *World) judgeFlows(o *Observed) {
 				return
 			}
 			names := switchesFromMask(m).names()
-			w.fail("C16.semantics", strings.Join(names, "+"), "rules and NetworkPolicy semantics disagree on flows; reproduced exactly by deviation switch(es) %s; e.g. %s",
-				strings.Join(names, "+"), strings.Join(pureMis, " ; "))
+			w.fail("C16.semantics", strings.Join(names, "+"), "%s rules and NetworkPolicy semantics disagree on flows; reproduced exactly by deviation switch(es) %s; e.g. %s",
+				when, strings.Join(names, "+"), strings.Join(pureMis, " ; "))
 			return
 		}
 	}
-	w.fail("C16.semantics", "unexplained", "rules and NetworkPolicy semantics disagree and no combination of listed switches reproduces it; e.g. %s", strings.Join(pureMis, " ; "))
+	w.fail("C16.semantics", "unexplained", "%s rules and NetworkPolicy semantics disagree and no combination of listed switches reproduces it; e.g. %s", when, strings.Join(pureMis, " ; "))
 }
 
 func verdict(a bool) string {
